@@ -165,8 +165,8 @@ Proof.
     + destruct (same_as_new_timeouts ncpu (fst o)) as (h1 & h2 & H1 & H2 & H12).
       destruct (apply_defaults_positive ncpu (fst o) Hn) as [_ (g & Hg & Hp)].
       rewrite Hg in H1; injection H1 as <-. exists h2; split; [exact H2|]. intros f; rewrite <- H12; apply Hp.
-    + cbn [s_policy new_policy]. destruct tables_agree as (_ & _ & _ & _ & E5). rewrite E5.
-      destruct (rlc (snd o)); cbn; discriminate.
+    + cbn [s_policy]. unfold new_policy. destruct tables_agree as (_ & _ & _ & _ & E5).
+      destruct (rlc (snd o)); [cbn; discriminate|]. rewrite E5. cbn; discriminate.
   - unfold comp_agrees. cbn [s_tuning s_policy s_comp new_components c_attr_size c_attr_ttl c_neg_enabled c_neg_ttl c_pool c_limiter c_dir].
     repeat split; try reflexivity.
     + specialize (Hnum NegativeCacheTimeout).
@@ -293,8 +293,8 @@ Proof.
     destruct (String.eqb_spec (squash (snd o)) ""), (String.eqb_spec (squash (snd o)) (squash (s_policy s)));
       cbn; split; intros H; try discriminate; try reflexivity; try tauto; try (split; assumption).
   - cbn. split; [discriminate | contradiction].
-  - rewrite update_policy_eq. destruct (String.eqb_spec (squash (s_policy s)) (squash p)); cbn; split; intros H;
-      try discriminate; try reflexivity; try congruence. intros E; apply n; symmetry; exact E.
+  - rewrite update_policy_eq. destruct (String.eqb_spec (squash (s_policy s)) (squash p)) as [e|n]; cbn; split; intros H;
+      try discriminate; try reflexivity; try congruence.
 Qed.
 
 (* effect of an accepted update on the tuning half *)
@@ -304,7 +304,7 @@ Lemma accepted_tuning : forall ncpu s u s' g, 0 < ncpu ->
 Proof.
   intros ncpu s u s' g Hn H Hg. destruct u; cbn [apply_update effective_tuning] in *.
   - injection Hg as <-. rewrite update_export_eq in H. destruct (squash_rejected o s); [discriminate|].
-    cbv zeta in H. injection H as <-. cbn [s_tuning]. rewrite update_tuning_eq. cbn [s_tuning].
+    rewrite update_tuning_eq in H. cbv zeta in H. cbn [s_tuning] in H. injection H as <-. cbn [s_tuning].
     apply rt_defaults_applied; assumption.
   - injection Hg as <-. injection H as <-. rewrite update_tuning_eq. cbn [s_tuning]. apply rt_defaults_applied; assumption.
   - discriminate.
@@ -349,7 +349,7 @@ Lemma export_nil_preserved : forall ncpu o s s', 0 < ncpu -> inv s ->
 Proof.
   intros ncpu o s s' Hn [[P1 [(h & Hh & Hpos) P3]] _] H.
   rewrite update_export_eq in H. destruct (squash_rejected o s); [discriminate|].
-  cbv zeta in H. injection H as <-. cbn [s_tuning]. rewrite update_tuning_eq. cbn [s_tuning].
+  rewrite update_tuning_eq in H. cbv zeta in H. cbn [s_tuning] in H. injection H as <-. cbn [s_tuning].
   rewrite merge_tuning_eq. cbn [apply_tuning_defaults log timeouts]. split.
   - intros ->. reflexivity.
   - intros ->. rewrite Hh. eexists; eexists; split; [reflexivity|split; [reflexivity|]].
